@@ -117,7 +117,76 @@ func ruleInitArms(c *RC) *RuleResult {
 			r.unresolved("paths of " + ini.Name + " through the epoch writer")
 		}
 	}
-	// exported entries that call an initialiser must not write the epoch afterwards (they only call the initialiser)
+	// the initialiser's arming is final for its epoch: a function that calls something which may have entered a new epoch
+	// (the call may reach an initialiser) does not arm the timer afterwards — it would overwrite the new epoch's duration
+	// (zero for a primary that must propose at once) with one computed for the old epoch
+	isIni := map[*FuncInfo]bool{}
+	for _, i := range inis {
+		isIni[i] = true
+	}
+	reach := map[*FuncInfo]bool{}
+	var reaches func(f *FuncInfo, seen map[*FuncInfo]bool) bool
+	reaches = func(f *FuncInfo, seen map[*FuncInfo]bool) bool {
+		if isIni[f] {
+			return true
+		}
+		if v, ok := reach[f]; ok {
+			return v
+		}
+		if seen[f] {
+			return false
+		}
+		seen[f] = true
+		for _, s := range c.A.FnSites[f] {
+			if s.Kind == "call" && s.Target != nil && reaches(s.Target, seen) {
+				reach[f] = true
+				return true
+			}
+		}
+		reach[f] = false
+		return false
+	}
+	// (only the function's own calls of the arming wrapper: `if:Timer.Reset` entries of the log also stand for arming done
+	// inside a callee)
+	wrappers := map[string]bool{}
+	for _, w := range c.timerWrappers() {
+		wrappers["fn:"+w.Name] = true
+	}
+	for _, fn := range c.Prog.dbftFuncs() {
+		if isIni[fn] || c.A.higherOrder(fn) {
+			continue
+		}
+		arms := false
+		for _, s := range c.A.FnSites[fn] {
+			if s.Kind == "call" && wrappers[s.Callee] && !wrappers["fn:"+fn.Name] {
+				arms = true
+			}
+		}
+		if !arms {
+			continue
+		}
+		bad := ""
+		for _, e := range c.exitsOf(fn) {
+			after := false
+			for _, ev := range e.Log {
+				if strings.HasPrefix(ev, "fn:") && !wrappers[ev] {
+					if g := c.Prog.fn(strings.TrimPrefix(ev, "fn:")); g != nil && g != fn && reaches(g, map[*FuncInfo]bool{}) {
+						after = true
+						continue
+					}
+				}
+				if after && wrappers[ev] {
+					bad = ev + " after a call that may have entered a new epoch on path {" + strings.Join(e.Trail, "; ") + "}"
+				}
+			}
+		}
+		r.Sites++
+		if bad == "" {
+			r.ok(fn.Name + ": never arms the timer after a call that may have changed the epoch")
+		} else {
+			r.fail(fn.Name+"/arm-after-init", c.Prog.Pos(fn.Decl), "the timer is armed again after the initialiser may already have armed it for a new epoch: "+bad)
+		}
+	}
 	return r
 }
 
